@@ -127,6 +127,7 @@ pub mod c07_max;
 pub mod c08_discrete;
 pub mod c09_convert;
 pub mod c10_revcomp;
+pub mod c16_sampler;
 pub mod c19_dense;
 
 #[cfg(not(kani))]
